@@ -17,6 +17,7 @@ TRACE_CFG = "SPECIFICATION Spec\nCHECK_DEADLOCK FALSE\n"
 MC_CFG = "SPECIFICATION Spec\nCONSTRAINT Bound\nINVARIANT TypeOK\nPROPERTY RejectedIsFinal\nCHECK_DEADLOCK FALSE\n"
 FILES = ["pyoda_time/time_zones/Tzdb.nzd", "tests/test_data/Tzdb2013bFromNodaTime1.1.nzd"]
 CALL_TIMEOUT_S = 20
+AS_LIMIT = 3 * 2**30    # address-space cap per worker: a decoded count must never translate into a multi-GiB allocation
 
 
 class _Hang(Exception):
@@ -83,7 +84,7 @@ def attempt(args):
     import resource
 
     try:
-        resource.setrlimit(resource.RLIMIT_AS, (6 * 2**30, 6 * 2**30))
+        resource.setrlimit(resource.RLIMIT_AS, (AS_LIMIT, AS_LIMIT))
     except Exception:  # noqa: BLE001
         pass
     from pyoda_time.time_zones import DateTimeZoneCache
@@ -169,6 +170,12 @@ def plan(path: str, rnd: random.Random, q: bool) -> list:
                 add("insert", p, [rnd.choice(vals + [rnd.randrange(256)]) for _ in range(rnd.randint(1, 3))], zid)
             if rnd.random() < (0.1 if q else 0.4):
                 add("delete", p, [rnd.randint(1, 4)], zid)
+    # counts decoded from damaged bytes must not be trusted for allocation: huge varints at the first bytes of every zone field
+    for fid, hs, ds, end, zid in fields:
+        if fid == 1 and (not q or rnd.random() < 0.25):
+            for p in range(ds + 1, min(ds + 5, end)):
+                for payload in ([0xFF, 0xFF, 0xFF, 0x7F], [0xFF, 0xFF, 0xFF, 0xFF, 0x07], [0xFF, 0xFF, 0xFF, 0xFF]):
+                    add("subst", p, payload, zid)
     # the 4-byte version header
     for p in range(4):
         for v in vals + [1]:
@@ -220,10 +227,10 @@ def run(ctx: Ctx):
     ctx.rule = ("faults applied to both real database files: truncation at every structural boundary +-1 and every "
                 + ("997th" if q else "61st") + " byte; 1-4 byte substitutions (0x00/0x7F/0x80/0xFF/+1/random), insertions and deletions at the field id, "
                 "length bytes, first data bytes, last byte and random interior bytes of every field; each faulted stream is loaded, its ids "
-                "listed and the zone containing the fault (plus 3 random ids) fetched and queried, every call under a 20 s alarm and a 6 GB "
+                "listed and the zone containing the fault (plus 3 random ids) fetched and queried, every call under a 20 s alarm and a 3 GB "
                 "address-space limit; non-trivial = distinct (file, fault)")
     ctx.assumptions += ["the structure map (field boundaries, zone ids) is derived with the package's own reader on the undamaged file",
-                        "hang = no return within 20 s; memory exhaustion = MemoryError under RLIMIT_AS 6 GB"]
+                        "hang = no return within 20 s; memory exhaustion = MemoryError under RLIMIT_AS 3 GiB"]
 
 
 def replay(ctx, path):
